@@ -193,3 +193,52 @@ def finalisation(ctx):
     bad = [e for e in effs if any(t[0] in ('global', 'greach') for t in e.origins)]
     ctx.ob(not bad, wu, 'wrapping creates its class per call and caches nothing globally')
     ctx.floor(4)
+
+
+@rule('C20.21')
+def module_level_closures_hold_no_state(ctx):
+    """a function built once at import time by a repo function (``bbrepr = guard(..)``) is shared
+    by every call and every thread: the closure variables of the builder are process-wide state.
+    They may not be mutated by the returned function (a recursion guard keyed by id(obj) alone
+    makes one thread's rendering appear as '...' in another's)"""
+    p = ctx.program
+    n = 0
+    for mod in p.modules.values():
+        if mod.short in ('tutorial',):
+            continue
+        for st in mod.tree.body:
+            if not isinstance(st, ast.Assign):
+                continue
+            for c in ast.walk(st.value):
+                if not isinstance(c, ast.Call):
+                    continue
+                f = c.func
+                q = None
+                if isinstance(f, ast.Name):
+                    d = p.resolve_global(mod, f.id)
+                    q = getattr(d, 'qualname', None) if d is not None and getattr(d, 'kind', None) == 'function' else None
+                    if q is None and d is not None and getattr(d, 'unit', None) is not None:
+                        q = d.unit.qualname
+                bu = p.find_unit(q) if q else None
+                if bu is None or bu.cls is not None:
+                    continue
+                inner = [x for x in bu.children if not x.is_lambda or True]
+                if not inner:
+                    continue
+                n += 1
+                blocals = set(bu.locals) | set(bu.params)
+                for iu in inner:
+                    for x in iu.own_nodes():
+                        tgt = None
+                        if isinstance(x, ast.Call) and isinstance(x.func, ast.Attribute) and is_name(x.func.value) \
+                                and x.func.attr in ('add', 'discard', 'remove', 'append', 'pop', 'clear', 'update', 'setdefault', 'extend', 'insert', 'popitem'):
+                            tgt = x.func.value.id
+                        elif isinstance(x, (ast.Subscript,)) and isinstance(x.ctx, (ast.Store, ast.Del)) and is_name(x.value):
+                            tgt = x.value.id
+                        elif isinstance(x, ast.Nonlocal):
+                            tgt = x.names[0]
+                        if tgt and tgt in blocals and tgt not in iu.locals and tgt not in iu.params:
+                            ctx.ob(False, iu, 'a function built at import time does not mutate the variables of its builder: %s' % norm(x)[:60],
+                                   '%s = %s(..) at module level: %s is shared by all calls and threads' % (norm(st.targets[0]), bu.qualname, tgt), node=x)
+    ctx.ob(True, 'package', 'module-level values built by repo closures examined: %d' % n)
+    ctx.floor(1)
